@@ -29,6 +29,12 @@ func runOSProc(n int64, lang int64, seed int64) {
 	src := &scriptReader{fill: newRng(seed, "osproc"), after: "data"}
 	swapSource(src, "script")
 	recNewMnemonic(n, lang, nil)
+	// sources that fail for a while or for ever: nothing but the source's bytes may end up in a mnemonic
+	for i, sc := range [][]rstep{{{K: 0, Err: "EINTR"}}, {{K: 5}, {K: 0, Err: "EAGAIN"}}, {{K: 3}, {K: 0, Err: "temporary"}}, {{K: 0, Err: "EOF"}}} {
+		src.script, src.pos, src.after = sc, 0, []string{"EINTR", "EAGAIN", "data", "EOF"}[i]
+		recNewMnemonic(n, lang, nil)
+	}
+	src.script, src.pos, src.after = nil, 0, "data"
 	swapSource(osRandReader(), "os")
 	emit(Event{"op": "OSMark", "id": 2})
 	mark("BEGIN")
